@@ -4,8 +4,10 @@ import struct
 import canon
 
 
-def run_decoder(chunks, max_payload, return_bytes=True, return_offset=True, use_callback=False):
-    """Returns (per-call canonical strings, flat list of result dicts, error or None)."""
+def run_decoder(chunks, max_payload, return_bytes=True, return_offset=True, use_callback=False, as_ints=False, typed_callbacks=None):
+    """Returns (per-call canonical strings, flat list of result dicts, error or None).
+    as_ints: single-byte chunks are passed as `int` (the documented alternative input form).
+    typed_callbacks: dict type -> list, filled by callbacks registered for that specific message type."""
     from fusion_engine_client.parsers.decoder import FusionEngineDecoder
     from fusion_engine_client.messages import MessageHeader
     dec = FusionEngineDecoder(max_payload_len_bytes=max_payload, return_bytes=return_bytes,
@@ -13,11 +15,15 @@ def run_decoder(chunks, max_payload, return_bytes=True, return_offset=True, use_
     cb = []
     if use_callback:
         dec.add_callback(None, lambda *a: cb.append(a))
+    if typed_callbacks is not None:
+        from fusion_engine_client.messages import MessageType
+        for t, sink in typed_callbacks.items():
+            dec.add_callback(MessageType(t, raise_on_unrecognized=False), (lambda s: (lambda *a: s.append(a)))(sink))
     calls = []
     flat = []
     for ch in chunks:
         try:
-            res = dec.on_data(bytes(ch))
+            res = dec.on_data(ch[0] if (as_ints and len(ch) == 1) else bytes(ch))
         except BaseException as e:  # the property says "never raises"
             return calls, flat, '%s: %s' % (type(e).__name__, e), cb
         pairs = []
